@@ -107,18 +107,21 @@ PhaseCellsOK(S, n, r) ==
 RECURSIVE AncestorSources(_, _)
 AncestorSources(S, n) ==
   IF S.par[n] = <<>> THEN {n} ELSE UNION {AncestorSources(S, S.par[n][i]) : i \in DOMAIN S.par[n]}
+\* (the rows of one component are compared as a set with the phases it is configured for - one row each, in whatever order
+\*  they are emitted; a Domain column, when there is one, names a source that powers the component; without system phases
+\*  there is nothing to report: None or an empty table)
 PhasesOK(S, P) ==
-  IF S.sysph = <<>> THEN P.isnone
+  IF S.sysph = <<>> THEN P.isnone \/ P.rows = <<>>
   ELSE /\ ~P.isnone
        /\ \A i \in DOMAIN P.rows : P.rows[i].comp \in Names(S)
        /\ \A n \in Names(S) :
             LET rs == PhaseRowsOf(P, n) IN
-            /\ [i \in DOMAIN rs |-> rs[i].phase] = ListedPhases(S, n)
+            /\ {rs[i].phase : i \in DOMAIN rs} = SeqRange(ListedPhases(S, n))
+            /\ Len(rs) = Len(ListedPhases(S, n))
             /\ \A i \in DOMAIN rs :
                   /\ rs[i].type = Kind(S, n)
                   /\ PhaseCellsOK(S, n, rs[i])
                   /\ P.hasdomain => rs[i].domain \in AncestorSources(S, n)
-       /\ P.hasdomain <=> Cardinality(Sources(S)) > 1
 
 -----------------------------------------------------------------------------
 (* tree(): a sequence of <<depth, name>> in print order                     *)
@@ -149,8 +152,8 @@ DocLimitsOK(S, n, e) ==
   \* configured -, and every configured applicable limit is in the document
   /\ \A i \in DOMAIN e.limits :
         LET key == e.limits[i][1] I == ConfLim(S, n, key) IN
-        /\ key \in AppLim(S, n)
-        /\ IF I = {} THEN DefaultLimit(key, e.limits[i][2])
+        key \in AppLim(S, n) =>          \* (what the document says about limits that do not apply to the kind is not judged)
+           IF I = {} THEN DefaultLimit(key, e.limits[i][2])
            ELSE e.limits[i][2] = S.comps[n].pay.limits[CHOOSE j \in I : TRUE][2]
   /\ \A j \in DOMAIN S.comps[n].pay.limits :
         S.comps[n].pay.limits[j][1] \in AppLim(S, n) => \E i \in DOMAIN e.limits : e.limits[i][1] = S.comps[n].pay.limits[j][1]
@@ -160,13 +163,14 @@ DocEntryOK(S, n, e) ==
   /\ e.rail = S.comps[n].rail
   /\ e.group = S.comps[n].group
   /\ e.pconf = S.pconf[n]
-  /\ e.params = Par(S, n)                   \* every parameter, tables and resistance lists included, nothing else
+  \* every parameter, tables and resistance lists included (further keys an entry may carry are not judged)
+  /\ \A key \in DOMAIN Par(S, n) : key \in DOMAIN e.params /\ e.params[key] = Par(S, n)[key]
 SaveDocOK(S, Doc, sysname) ==
   /\ ~Doc.isnone
   /\ Doc.sysname = sysname
   /\ Doc.sysph = S.sysph                      \* the phases in declared order with their durations
   /\ {Doc.comps[i].name : i \in DOMAIN Doc.comps} = Names(S)
-  /\ {Doc.tablekeys[i] : i \in DOMAIN Doc.tablekeys} = Names(S)
+  /\ {Doc.tablekeys[i] : i \in DOMAIN Doc.tablekeys} \subseteq Names(S)     \* no entry for a component that is not there
   /\ \A n \in Names(S) :
         /\ Cardinality(DocEntries(Doc, n)) = 1
         /\ LET e == Doc.comps[CHOOSE i \in DocEntries(Doc, n) : TRUE] IN DocEntryOK(S, n, e) /\ DocLimitsOK(S, n, e)
